@@ -88,8 +88,9 @@ def check(repo: Repo, run: Run) -> None:
     yields = [r for r in rec.returns if r.kind in ("yield", "yield_from")]
     kev = repo.function("kevent", "from_kd_buf")
     want = interp.run(repo.module("kevent"), kev, {kev.args.args[0].arg: raw}).return_term()
+    opaque = T("call", (T("func", ("pykdebugparser.kevent.from_kd_buf",)), (raw,), ()))
     ok = len(yields) == 1 and yields[0].kind == "yield" and lp.id in yields[0].loops \
-        and sym.canon(yields[0].value) == sym.canon(want)
+        and (sym.canon(yields[0].value) == sym.canon(want) or yields[0].value == opaque)
     run.ob("R1", MOD, "KdBufParser.parse_v2", "exactly one yield: from_kd_buf(<the raw read>)", ok,
            "" if ok else f"parse_v2 has {len(yields)} yield(s) or does not yield from_kd_buf of the unmodified 64 bytes read in "
                          f"that iteration", line=fn.lineno)
